@@ -172,6 +172,17 @@ def jobs(tier):
         for first, second in ((mk1, mk1), (mk1, mk2), (mk2, mk1)):
             out.append({"program": prog(6, sc + [first("c1", optional=True), second("c2")]), "families": fam, "family": clab + "/twice"})
             out.append({"program": prog(6, sc + [first("c1"), second("c2", optional=True)]), "families": fam, "family": clab + "/twice"})
+    # two periodic constraints on one resource with the SAME period and DIFFERENT offsets / activity windows (anything the
+    # encoder keeps per (task, period) must not leak from the first constraint into the second)
+    sc1 = [fixed("a", 1), fixed("b", 2), worker("w"), req("a", "w"), req("b", "w")]
+    for cls in ("ResourcePeriodicallyUnavailable", "ResourcePeriodicallyInterrupted"):
+        def mk(i, ivl, cls=cls, **k):
+            return con(cls, i, resource=R("w"), list_of_time_intervals=[ivl], period=4, **k)
+        for kw1, kw2 in (({}, {"offset": 2}), ({"offset": 1}, {"offset": 3}), ({"offset": 2}, {}), ({}, {"offset": 1, "start": 4}),
+                         ({"end": 4}, {"offset": 2})):
+            for iv1, iv2 in (((0, 1), (0, 1)), ((0, 1), (1, 2))):
+                out.append({"program": prog(8, sc1 + [mk("c1", iv1, **kw1), mk("c2", iv2, **kw2)]), "families": fam,
+                            "family": cls + "/twice-offsets"})
     # a constraint whose encoding has many assertions, on a solver that tracks them one by one (debug mode)
     big = [fixed(t, 1) for t in "abcd"] + [worker("w")] + [req(t, "w") for t in "abcd"]
     out.append({"program": prog(6, big + [con("WorkLoad", "c1", resource=R("w"), kind="max",
